@@ -55,7 +55,7 @@ theorem C12_update_later_only (s : State) (b : Blind) :
   · intro ch ok h
     exact (C12_snapshot _ ch ok h).1
 
-/-- **C12 — the blinds published for a hand are written at its open and by nothing else**: of the 17 kinds of event a
+/-- **C12 — the blinds published for a hand are written at its open and by nothing else**: of the 19 kinds of event a
 table can see, only a gate firing or a retry turn *that opens a hand* changes `GameBlindState`, and it then publishes the
 `BlindState` in force at that moment; every other event — level changes, membership calls, settlement, the continue step,
 pause / close / release, refused or failed opens — leaves it exactly as it was. -/
@@ -74,6 +74,45 @@ theorem C12_break (s : State) (hb : s.blind.isBreaking = true) :
   unfold create
   have : (s.blind.level == -1) = true := hb
   simp [this]
+
+/-- **C12 — a table created on a break starts paused, with or without players**: `CreateTable` with `JoinPlayers` adds the
+players as a batch join and turns an MTT table `balancing` — except on a break, where it stays `pausing`, whatever the
+mode, the players and the outcome of seating them -/
+theorem C12_created_on_break_with_players (cfg : Meta) (b : Blind) (hb : b.isBreaking = true) (js : List Join) (ch : List Int) :
+    (createWith cfg b js ch).1.status = .pausing := by
+  have hc : (create cfg b).status = .pausing := by
+    unfold create
+    have : (b.level == -1) = true := hb
+    simp [this]
+  have hadd : (batchAdd (create cfg b) js ch).1.status = .pausing := by
+    rw [← hc]
+    unfold batchAdd
+    split
+    · rfl
+    · simp only
+      split
+      · rfl
+      · split
+        · rfl
+        · split <;> rfl
+  unfold createWith createJoin
+  split
+  · exact hc
+  · simp only
+    split
+    · simp [hadd]
+    · exact hadd
+
+-- non-vacuity: an MTT table created with two players (one fixed seat, one drawn) — balancing on a playable level,
+-- pausing on a break; the recorded draw is legal and both are seated
+example :
+    let cfg : Meta := { maxSeat := 4, minPlayers := 2, rule := .default, mode := .mtt }
+    let js : List Join := [{ id := 1, chips := 500, seat := 0 }, { id := 2, chips := 300, seat := -1 }]
+    let lvl : Blind := { level := 1, ante := 0, dealer := 0, sb := 10, bb := 20 }
+    let brk : Blind := { level := -1, ante := 0, dealer := 0, sb := 0, bb := 0 }
+    (createWith cfg lvl js [2]).2 = .ok ∧ (createWith cfg lvl js [2]).1.status = .balancing ∧
+    (createWith cfg brk js [2]).2 = .ok ∧ (createWith cfg brk js [2]).1.status = .pausing ∧
+    (createWith cfg brk js [2]).1.players.map (·.seat) = [0, 2] ∧ DrawLegal (create cfg brk) (.update js [] [2]) := by decide
 
 /-- … nor by the retry loop: a break announced while `tableGameOpen` waits to retry a refused open stops the retry -/
 theorem C12_break_retry (s : State) (hb : s.blind.isBreaking = true) (ch : Option Int) (ok : Bool) :
